@@ -6,7 +6,7 @@
    Indexes are < 2^31-64 (IDXMAX) where stated. *)
 From Coq Require Import List NArith ZArith Bool Lia.
 From HV Require Import Gen.Tables Base.BSet Bitmap.BitmapModel Bitmap.BitmapSpec
-  Bitmap.BitmapBase Bitmap.BitmapOps Bitmap.BitmapQueries Bitmap.BitmapScan Bitmap.BitmapCompare Bitmap.BitmapWeight Bitmap.BitmapRange Bitmap.BitmapSinglify Bitmap.BitmapNext.
+  Bitmap.BitmapBase Bitmap.BitmapOps Bitmap.BitmapQueries Bitmap.BitmapScan Bitmap.BitmapCompare Bitmap.BitmapWeight Bitmap.BitmapRange Bitmap.BitmapSinglify Bitmap.BitmapNext Bitmap.BitmapInclusion Bitmap.BitmapLeaf.
 Import ListNotations.
 Local Open Scope N_scope.
 
@@ -245,3 +245,84 @@ Proof. exact bm_next_unset_spec. Qed.
 Print Assumptions next_unset_spec.
 Example next_nonvacuous : bm_next ex_inf3 1 = 64%Z /\ bm_next ex_inf3 127 = 192%Z /\ bm_next_unset ex_inf3 (-1) = 0%Z.
 Proof. repeat split; vm_compute; reflexivity. Qed.
+
+(* compare_inclusion: EQUAL (also for two empty sets) / INCLUDED / CONTAINS / INTERSECTS / DIFFERENT *)
+Theorem compare_inclusion_spec : forall r1 r2, wf r1 -> wf r2 ->
+  bm_compare_inclusion r1 r2 = sp_compare_inclusion (abs r1) (abs r2).
+Proof. exact bm_compare_inclusion_spec. Qed.
+Print Assumptions compare_inclusion_spec.
+Theorem compare_inclusion_constants :
+  (BM_EQUAL, BM_INCLUDED, BM_CONTAINS, BM_INTERSECTS, BM_DIFFERENT) = (0, 1, 2, 3, 4)%Z.
+Proof. reflexivity. Qed.
+Example compare_inclusion_nonvacuous :
+  bm_compare_inclusion cf_w_from64_2w (R 1 8 [5] false) = BM_DIFFERENT /\ bm_compare_inclusion cf_w_empty cf_w_empty = BM_EQUAL /\
+  bm_compare_inclusion cf_w_from64_2w ex_inf3 = BM_INTERSECTS /\ bm_compare_inclusion cf_w_empty ex_inf3 = BM_INCLUDED.
+Proof. repeat split; vm_compute; reflexivity. Qed.
+
+(* hwloc_flsl_manual (statement by statement) is N.size on every 64-bit word *)
+Theorem flsl_manual_is_size : forall w, w < U64 -> flsl_manual w = N.size w.
+Proof. exact flsl_manual_correct. Qed.
+Print Assumptions flsl_manual_is_size.
+
+(* ---- corollaries: results depend on the argument SETS only ---- *)
+Theorem representation_independent_queries : forall r1 r1' r2 r2',
+  wf r1 -> wf r1' -> wf r2 -> wf r2' -> abs r1 = abs r1' -> abs r2 = abs r2' ->
+  bm_isequal r1 r2 = bm_isequal r1' r2' /\ bm_isincluded r1 r2 = bm_isincluded r1' r2' /\
+  bm_intersects r1 r2 = bm_intersects r1' r2' /\ bm_compare r1 r2 = bm_compare r1' r2' /\
+  bm_compare_inclusion r1 r2 = bm_compare_inclusion r1' r2' /\
+  Z.sgn (bm_compare_first_v true r1 r2) = Z.sgn (bm_compare_first_v true r1' r2') /\
+  bm_iszero r1 = bm_iszero r1' /\ bm_isfull r1 = bm_isfull r1' /\
+  bm_first r1 = bm_first r1' /\ bm_last r1 = bm_last r1' /\
+  bm_first_unset r1 = bm_first_unset r1' /\ bm_last_unset r1 = bm_last_unset r1' /\
+  bm_weight r1 = bm_weight r1' /\ bm_nr_ulongs r1 = bm_nr_ulongs r1' /\
+  (forall cpu, bm_isset r1 cpu = bm_isset r1' cpu) /\
+  (forall i, bm_to_ith_ulong r1 i = bm_to_ith_ulong r1' i) /\
+  (forall prev, (-1 <= prev < Z.of_N IDXMAX)%Z -> bm_next r1 prev = bm_next r1' prev /\ bm_next_unset r1 prev = bm_next_unset r1' prev).
+Proof.
+  intros r1 r1' r2 r2' H1 H1' H2 H2' E1 E2.
+  rewrite !bm_isequal_spec, !bm_isincluded_spec, !bm_intersects_spec, !bm_compare_spec, !bm_compare_inclusion_spec,
+    !compare_first_fixed_spec, !bm_iszero_spec, !bm_isfull_spec, !bm_first_spec, !bm_last_spec, !bm_first_unset_spec,
+    !bm_last_unset_spec, !bm_weight_spec, !bm_nr_ulongs_spec by assumption.
+  rewrite E1, E2. repeat split; try reflexivity.
+  - intros cpu. rewrite !bm_isset_spec by assumption. now rewrite E1.
+  - intros i. rewrite !bm_to_ith_ulong_spec by assumption. now rewrite E1.
+  - rewrite !bm_next_spec by assumption. now rewrite E1.
+  - rewrite !bm_next_unset_spec by assumption. now rewrite E1.
+Qed.
+Print Assumptions representation_independent_queries.
+Example representation_independent_nonvacuous :
+  abs cf_w_from64_1w = abs cf_w_from64_2w /\ cf_w_from64_1w <> cf_w_from64_2w.
+Proof. split; [vm_compute; reflexivity|discriminate]. Qed.
+
+Theorem representation_independent_combinators : forall res res' r1 r1' r2 r2',
+  wf res -> wf res' -> wf r1 -> wf r1' -> wf r2 -> wf r2' -> abs r1 = abs r1' -> abs r2 = abs r2' ->
+  abs (bm_or res r1 r2) = abs (bm_or res' r1' r2') /\ abs (bm_and res r1 r2) = abs (bm_and res' r1' r2') /\
+  abs (bm_andnot res r1 r2) = abs (bm_andnot res' r1' r2') /\ abs (bm_xor res r1 r2) = abs (bm_xor res' r1' r2') /\
+  abs (bm_not res r1) = abs (bm_not res' r1') /\ abs (bm_copy res r1) = abs (bm_copy res' r1').
+Proof.
+  intros res res' r1 r1' r2 r2' Hr Hr' H1 H1' H2 H2' E1 E2.
+  rewrite (proj2 (bm_or_spec res r1 r2 Hr H1 H2)), (proj2 (bm_or_spec res' r1' r2' Hr' H1' H2')),
+    (proj2 (bm_and_spec res r1 r2 Hr H1 H2)), (proj2 (bm_and_spec res' r1' r2' Hr' H1' H2')),
+    (proj2 (bm_andnot_spec res r1 r2 Hr H1 H2)), (proj2 (bm_andnot_spec res' r1' r2' Hr' H1' H2')),
+    (proj2 (bm_xor_spec res r1 r2 Hr H1 H2)), (proj2 (bm_xor_spec res' r1' r2' Hr' H1' H2')),
+    (proj2 (bm_not_spec res r1 Hr H1)), (proj2 (bm_not_spec res' r1' Hr' H1')),
+    (proj2 (bm_copy_spec res r1 Hr H1)), (proj2 (bm_copy_spec res' r1' Hr' H1')), E1, E2.
+  repeat split; reflexivity.
+Qed.
+Print Assumptions representation_independent_combinators.
+
+(* the destination only contributes its allocation: using an operand as destination (the value
+   the C code sees when res == set1 / res == set2) gives the same set.  The statement-order
+   effects of aliasing inside the C loops are covered by the differential harness. *)
+Corollary alias_independent : forall res r1 r2, wf res -> wf r1 -> wf r2 ->
+  abs (bm_or r1 r1 r2) = abs (bm_or res r1 r2) /\ abs (bm_or r2 r1 r2) = abs (bm_or res r1 r2) /\
+  abs (bm_and r1 r1 r2) = abs (bm_and res r1 r2) /\ abs (bm_andnot r2 r1 r2) = abs (bm_andnot res r1 r2) /\
+  abs (bm_xor r1 r1 r1) = bs_empty /\ abs (bm_not r1 r1) = bs_compl (abs r1).
+Proof.
+  intros res r1 r2 Hr H1 H2.
+  destruct (representation_independent_combinators r1 res r1 r1 r2 r2) as (A & B & C & D & _); auto.
+  destruct (representation_independent_combinators r2 res r1 r1 r2 r2) as (A' & B' & C' & D' & _); auto.
+  repeat split; auto.
+  - rewrite (proj2 (bm_xor_spec r1 r1 r1 H1 H1 H1)). apply bs_ext. intros i. rewrite mem_xor, mem_empty. apply xorb_nilpotent.
+  - apply bm_not_spec; assumption.
+Qed.
